@@ -15,6 +15,7 @@ COMPONENTS = {
     "mul": dict(driver_mode="mul", targets=[("multi", "multi.cpp", "")]),
     "capi": dict(driver_mode="capi", targets=[("capi", "capi.cpp", R.REPO + "/c-interface/cpgm.cpp")]),
 }
+COMPONENTS["cmp"] = dict(driver_mode="cmp", targets=[("cmp", "cmp.cpp", "")])
 COMPONENTS["thr"] = dict(driver_mode="thr", targets=[("threads", "threads.cpp", "-lpthread")])
 COMPONENTS["own"] = dict(driver_mode="own", targets=[("own", "own.cpp", "")])
 # composite component: every harness reads the same case file and answers only the kinds it knows
@@ -32,7 +33,17 @@ TRUSTED_COMMON = [
 
 # ---------------------------------------------------------------- classifiers for known findings
 def no_classifier(case, what): return False
-CLASSIFIERS = {}
+
+def cmp_tiny_input(case, what):
+    """CompressedPGMIndex over fewer keys than Epsilon: the intercept universe prev_level_size - offset + 2 is smaller than the
+    number of intercepts and sdsl's builder throws runtime_error"""
+    t = case.split("|")
+    h = t[0].split()
+    if h[0] != "CMP" or "threw runtime_error" not in what: return False
+    n, eps = len(t[1].split()), int(h[4])
+    return n < eps
+
+CLASSIFIERS = {"cmp_tiny_input_runtime_error": cmp_tiny_input}
 
 # ---------------------------------------------------------------- property table
 def P(**kw): return kw
@@ -50,6 +61,8 @@ PROPS = {
              nontrivial=lambda line: len(line.split("|")[2].split()) >= 10),
     "C15": P(comp="dyn", gen=lambda t, s: gens.gen_dyn(t, s + 6), judges=["C15"], kinds=("DYN",),
              nontrivial=lambda line: len(line.split("|")[2].split()) >= 10),
+    "C08": P(comp="cmp", gen=lambda t, s: gens.gen_cmp(t, s), judges=["C08"], kinds=("CMP",),
+             nontrivial=lambda line: len(line.split("|")[1].split()) >= 2),
     "C09": P(comp="var", gen=lambda t, s: gens.gen_var(t, s, "BK"), judges=["C09"], kinds=("BKT",),
              nontrivial=lambda line: len(line.split("|")[1].split()) >= 2),
     "C10": P(comp="var", gen=lambda t, s: gens.gen_var(t, s, "EF"), judges=["C10"], kinds=("EFI",),
@@ -145,7 +158,7 @@ def check(pid, tier, seed, args, t0):
     notes, violations, known_hits = [], [], []
     replay_dir = os.path.join(R.EVID, "replay"); os.makedirs(replay_dir, exist_ok=True)
     for f in os.listdir(replay_dir):
-        if f.startswith(pid + "-"): os.remove(os.path.join(replay_dir, f))
+        if f.startswith(pid + "-") and not args.replay: os.remove(os.path.join(replay_dir, f))
 
     # 1-3 lint / translate / prove
     lint_bad = R.lint()
